@@ -101,6 +101,17 @@ func c15Run(rc *RunCtx) *Violation {
 			return rc.Viol("own-tag.invalid", fmt.Sprintf("GetOurInstanceTag returned %#x", tag), nil)
 		}
 	}
+	// 5b. version 2 messages and fragments carry no instance tags: the helper must say so
+	pr2 := Fork(rc.Seed, "c15v2", 0)
+	for _, typ := range []byte{0x02, 0x0a, 0x11, 0x12, 0x03} {
+		v2 := refotr.Armor(append([]byte{0, 2, typ}, pr2.Bytes(20+pr2.Intn(200))...))
+		if ours, theirs, ok := otr3.ExtractInstanceTags(v2); ok {
+			return rc.Viol("helper.tags", fmt.Sprintf("ExtractInstanceTags(%s) = (ours %#x, theirs %#x, ok true) for a version 2 message, which carries no instance tags", short(v2), ours, theirs), map[string]string{"kind": "v2-message"})
+		}
+	}
+	if _, _, ok := otr3.ExtractInstanceTags([]byte("?OTR,00001,00002,QUJD,")); ok {
+		return rc.Viol("helper.tags", "ExtractInstanceTags reports tags for a version 2 fragment", map[string]string{"kind": "v2-fragment"})
+	}
 	w := rc.NewWorld(rc.Parties)
 	a := w.P[0]
 	ta := rc.Parties[0].Tag
